@@ -37,7 +37,7 @@ MANIFEST = {
 # outcome classes
 T, F, E, N, U = 0, 1, 2, 3, 4  # true, false, error, non-bool value, unspecified by the statement
 
-LEAF_KINDS = ("div", "idx", "key", "bool", "int", "undecl", "noov", "map", "ovf", "conv", "uint")
+LEAF_KINDS = ("div", "idx", "key", "bool", "int", "undecl", "noov", "map", "ovf", "conv", "uint", "attr", "tzarg")
 
 
 def leaf_src(kind, i):
@@ -54,6 +54,9 @@ def leaf_src(kind, i):
         "ovf": f"(int(1.0 / 0.0) == x{i})",
         "conv": f"(int('1a') == x{i})",
         "uint": f"(uint(x{i}) == 1u)",
+        # a method the receiver's type does not have (AttributeError behind the error); an accessor given an argument it rejects
+        "attr": f"('a'.getDate() == x{i})",
+        "tzarg": f"(duration('1h').getHours('UTC') == x{i})",
     }[kind]
 
 
@@ -72,7 +75,7 @@ def leaf_spec(kind, i):
         return z3.If(x == 1, I(T), I(F)), I(0), [x >= 0, x <= 1]
     if kind == "int":
         return I(N), x, pre
-    if kind in ("undecl", "noov", "ovf", "conv"):
+    if kind in ("undecl", "noov", "ovf", "conv", "attr", "tzarg"):
         return I(E), I(0), pre
     if kind == "uint":
         return z3.If(x == 1, I(T), z3.If(x < 0, I(E), I(F))), I(0), pre
@@ -176,6 +179,7 @@ def kind_assignments(k, tier):
     out.append(tuple(["div", "int", "undecl", "idx", "int"][i % 5] for i in range(k)))
     out.append(tuple(["ovf", "uint", "conv", "div", "ovf"][i % 5] for i in range(k)))
     out.append(tuple(["bool", "ovf", "uint", "conv", "bool"][i % 5] for i in range(k)))
+    out.append(tuple(["attr", "bool", "tzarg", "div", "attr"][i % 5] for i in range(k)))
     if k <= 2 or tier == "thorough":
         out.append(tuple(["int"] * k))
         out.append(tuple(["map", "div", "map", "key", "idx"][i % 5] for i in range(k)))
@@ -202,8 +206,8 @@ def _negate_inner(t):
 
 def programs(tier):
     progs = []
-    plan = {"quick": [(1, "leaf", 9), (2, "leaf", 9), (3, "none", 3)],
-            "thorough": [(1, "leaf", 9), (2, "leaf", 9), (3, "leaf", 4), (4, "none", 3)]}[tier]
+    plan = {"quick": [(1, "leaf", 10), (2, "leaf", 10), (3, "none", 3)],
+            "thorough": [(1, "leaf", 10), (2, "leaf", 10), (3, "leaf", 4), (4, "none", 3)]}[tier]
     for k, nots, nk in plan:
         shapes = []
         for t in trees(k, nots):
